@@ -118,3 +118,13 @@ Proof. exact boundary_negative_zero. Qed.
 Example C10_boundary_unsafe_integer :
   exists e, encode nz_ty big_int = Err e.
 Proof. exact boundary_unsafe_integer. Qed.
+
+(* ---------- tie to the source text ----------
+   The two limits of the codec model are the constants of data/decode.go and data/encode.go (printed into
+   Anchors/Generated.v on every run). *)
+From Coq Require Import ZArith.
+From Verif Require Import Anchors.Generated Anchors.TieCodec.
+Theorem C10_limits_from_source :
+  go_data_maxStructureSize = Z.of_nat Codec.Model.max_size /\ go_data_maxSafeInteger = Codec.Model.max_safe.
+Proof. exact (conj tie_max_size tie_max_safe). Qed.
+Print Assumptions C10_limits_from_source.
